@@ -1,4 +1,5 @@
 """Sessions under systematic schedule exploration (preemption bound 1 at every mutex release / thread start)."""
+import os
 import session_common as SC
 from framework import Task
 
@@ -48,4 +49,27 @@ def digest_post(res):
                 out.append((tid, dict(kind='schedule_dependent', msg='the bytes of the written file differ between two schedules of the same session (%s)' % cfg,
                                       where='post', extra=dict(schedule=sched), inputs=[])))
                 break
+    return out
+
+
+TWO = open(os.path.join(os.path.dirname(os.path.abspath(__file__)), 'harness', 'two_files.cpp')).read()
+
+
+def two_file_tasks(tier, prefix, kinds, race):
+    """two File objects written concurrently, every schedule with one preemption"""
+    out = []
+    width = 96
+    nranges = 10 if tier == 'quick' else 24
+    for lvl in ((6,) if tier == 'quick' else (6, 0)):
+        for r in range(nranges + 1):
+            lo = r * width
+            hi = (r + 1) * width if r < nranges else 10 ** 9
+            out.append(Task('%s_two_files.l%d.sync%d-%s' % (prefix, lvl, lo, hi if r < nranges else 'end'),
+                            '#define VP_FS_CAP 4096\n#define CFG_LEVEL %d\n' % lvl + TWO, 'h_two_files', None,
+                            opts=dict(validate=False, extra=['zlib_stub.cpp'], limit_is_hang=True, max_steps=12000000, max_wall=1500,
+                                      enum_limit=400, preempt_bound=1, preempt_range=(lo, hi), race_detect=race, preempt_in_cs=True),
+                            desc='two independent File objects (level %d, container sizes 40 / 56) written concurrently by one '
+                                 'application thread, four worker threads, every schedule with one preemption at a synchronisation '
+                                 'point %d..%s: each file must hold exactly its own objects' % (lvl, lo, hi if r < nranges else 'end'),
+                            reach=('h_two_files:end',), bounds='3 objects per file; preemption bound 1', kinds=kinds))
     return out
